@@ -55,7 +55,12 @@ struct E4 : Engine {
 			ops.push(o); }
 		p["ops"] = ops;
 		if(mode == "fault"){ J f = J::arr(); int nf = 1 + r.below(4);
-			for(int i=0;i<nf;i++){ J ft = J::obj(); unsigned y = r.below(10); ft["at"] = (int)r.below(nops); if(y < 5){ ft["kind"] = "reset"; ft["after_bytes"] = (int)r.below(3000); } else if(y < 9){ ft["kind"] = "restart"; ft["s"] = (int)r.below(ns); } else { ft["kind"] = "reset"; ft["after_bytes"] = 0; } f.push(ft); }
+			for(int i=0;i<nf;i++){ J ft = J::obj(); unsigned y = r.below(10); ft["at"] = (int)r.below(nops); if(y < 4){ ft["kind"] = "reset"; ft["after_bytes"] = (int)r.below(3000); } else if(y < 7){ ft["kind"] = "restart"; ft["s"] = (int)r.below(ns); }
+				else if(y < 9){ ft["kind"] = "cut"; ft["c"] = (int)r.below(nc); ft["s"] = (int)r.below(ns);
+					// half of the partitions start right at a rise/clear of the node they isolate: an invalidation that cannot reach every server is the interesting case
+					if(r.below(2)){ std::vector<int> inv; for(int j=0;j<nops;j++){ std::string k = ops.a[j].gets("op"); if(k == "rise" || k == "clear") inv.push_back(j); } if(!inv.empty()){ int j = inv[r.below(inv.size())]; ft["at"] = j; ft["c"] = (int)ops.a[j].geti("c"); } }
+					ft["heal"] = (int)ft.geti("at") + 1 + (int)r.below(6); }   // partition between one client node and one server, healed a few operations later
+				else { ft["kind"] = "reset"; ft["after_bytes"] = 0; } f.push(ft); }
 			p["faults"] = f; }
 		return p;
 	}
@@ -126,8 +131,8 @@ struct E4 : Engine {
 				int c = (int)(((o.geti("c") % (int64_t)nc) + nc) % nc), t = (int)(o.geti("t") & 1); op.thread = c*2 + t;
 				ops.push_back(op); who.push_back({c,t}); ticks.push_back(op.kind == "tick" ? (int)std::max<int64_t>(0,std::min<int64_t>(o.geti("s"),100000)) : 0); }
 			// faults
-			struct Fault { int at; std::string kind; int s; int64_t after_bytes; bool armed = false, fired = false; uint64_t base = 0; };
-			std::vector<Fault> faults; const J &jf = plan.get("faults"); if(fault) for(size_t i=0;i<jf.size() && i<8;i++){ Fault f; f.at = (int)std::max<int64_t>(0,jf.a[i].geti("at")); f.kind = jf.a[i].gets("kind"); f.s = (int)(jf.a[i].geti("s") % ns); f.after_bytes = std::max<int64_t>(0,jf.a[i].geti("after_bytes")); faults.push_back(f); }
+			struct Fault { int at; std::string kind; int s; int64_t after_bytes; bool armed = false, fired = false; uint64_t base = 0; int c = 0, heal = -1; bool healed = false; };
+			std::vector<Fault> faults; const J &jf = plan.get("faults"); if(fault) for(size_t i=0;i<jf.size() && i<8;i++){ Fault f; f.at = (int)std::max<int64_t>(0,jf.a[i].geti("at")); f.kind = jf.a[i].gets("kind"); f.s = (int)(jf.a[i].geti("s") % ns); f.after_bytes = std::max<int64_t>(0,jf.a[i].geti("after_bytes")); f.c = (int)(((jf.a[i].geti("c") % (int64_t)nc) + nc) % nc); f.heal = (int)jf.a[i].geti("heal",-1); faults.push_back(f); }
 			struct Resetter : simk::Actor { std::vector<Fault> *f; std::map<std::string,int64_t> *cnt; bool enabled() override { for(auto &x:*f) if(x.kind == "reset" && x.armed && !x.fired && simk::stats().bytes_rx + simk::stats().bytes_tx >= x.base + (uint64_t)x.after_bytes) return true; return false; }
 				void step() override { for(auto &x:*f) if(x.kind == "reset" && x.armed && !x.fired && simk::stats().bytes_rx + simk::stats().bytes_tx >= x.base + (uint64_t)x.after_bytes){ x.fired = true; if(simk::reset_accepted_stream(simk::fault_rng().next())) (*cnt)["connection_resets"]++; } } const char *name() override { return "resetter"; } } resetter; resetter.f = &faults; resetter.cnt = &cnt; if(fault) simk::add_actor(&resetter);
 			// worker threads (one per client thread)
@@ -142,7 +147,9 @@ struct E4 : Engine {
 				hist.push_back(ops[i]); } }
 			else {
 				for(size_t i=0;i<ops.size() && res.ok;i++){ Op &op = ops[i]; int w = who[i].first*2 + who[i].second; fail_key = op.key; fail_is_fetch = op.kind == "fetch";
+					for(auto &f:faults) if(f.kind == "cut" && f.armed && !f.healed && f.heal <= (int)i){ f.healed = true; simk::set_link_cut(1 + f.c,"tcp:" + std::to_string(6001 + f.s),false); }
 					for(auto &f:faults) if(f.at == (int)i && !f.armed){ f.armed = true; f.base = simk::stats().bytes_rx + simk::stats().bytes_tx;
+						if(f.kind == "cut"){ cnt["partitions"]++; simk::set_link_cut(1 + f.c,"tcp:" + std::to_string(6001 + f.s),true); }
 						if(f.kind == "restart"){ cnt["server_restarts"]++; servers[f.s].reset(); start_server(f.s);
 							// everything that lived on that server is lost
 							for(auto it=model.m.begin();it!=model.m.end();){ if(server_of(it->first,ns) == (unsigned)f.s){ superseded[it->first].push_back(it->second.val); it = model.m.erase(it); } else ++it; } } }
@@ -198,6 +205,7 @@ struct E4 : Engine {
 			if(whole || (fail_is_fetch && nul_tainted.count(fail_key))){ res.cls = "nul-name-" + res.cls; res.fp = "nul-name-in-key-or-trigger:" + res.fp; } }
 		if(any_nul) cnt["plans_with_nul_in_names"]++;
 		for(auto &kv:cnt) res.counters[kv.first] = (long long)kv.second;
+		res.counters["connects_refused_by_partition"] = (long long)st.partition_refused;
 		res.counters["steps"] = (long long)st.steps; res.counters["switches"] = (long long)st.switches; res.counters["short_reads"] = (long long)st.short_reads; res.counters["short_writes"] = (long long)st.short_writes; res.counters["connects"] = (long long)st.connects; res.counters["resets_seen"] = (long long)st.resets;
 		res.counters["mode_" + mode] = 1;
 		if(cnt["fetch_hit"] > 0 || conc) res.nt = res.hash ? res.hash : 1;
